@@ -19,6 +19,8 @@ TARGETS = [("weight", (0.5, 0.25, 0.0)), ("weight", (-0.5, 0.0, 0.0)), ("weight"
            ("weight", (0.0, 0.0, 0.0)), ("weight", (0.25, 0.25, 0.25)), ("nr-contracts", (1.0, -1.0, 0.0)),
            ("nr-contracts", (0.0, 2.0, 0.0)), ("nr-contracts", (0.0, 0.0, -1.0))]
 NAN = float("nan")
+# fault assignments that also discontinue the third contract before it was ever quoted (and quote it afterwards)
+ZFAULTS = [("none", "none", "deadfirst"), ("none", "bid", "deadfirst"), ("dead", "none", "deadfirst")]
 
 
 def inject(b, c, fault, t):
@@ -62,10 +64,17 @@ def probe_state(sb, ref, cs, fee, faults):
     allc = list(cs) + [Z]
     t = T0 + timedelta(hours=1)
 
+    zfault = faults[2] if len(faults) > 2 else "never"
+    faults = tuple(faults[:2])
+
     def fresh():
         b = unsnap(sb)
         for c, f in zip(cs, faults):
             inject(b, c, f, t)
+        if zfault == "deadfirst":
+            # the third contract is discontinued BEFORE it was ever quoted or looked up, then quoted: it must stay without a price
+            b.exchange.process_EventContractDiscontinued(EventContractDiscontinued(t, Z))
+            b.exchange.process_EventNBBO(EventNBBO(t, Z, 63.0, 65.0))
         return b
 
     b = fresh()
@@ -75,6 +84,10 @@ def probe_state(sb, ref, cs, fee, faults):
         book = b.exchange[c]
         if f == "dead" and (has(book.bid_price) or has(book.ask_price) or book.is_alive):
             msgs.append("discontinued contract %s shows %r/%r after a later quote" % (c.symbol, book.bid_price, book.ask_price))
+    if zfault == "deadfirst":
+        book = b.exchange[Z]
+        if has(book.bid_price) or has(book.ask_price) or book.is_alive:
+            msgs.append("contract Z, discontinued before its first quote, shows %r/%r after a later quote" % (book.bid_price, book.ask_price))
     val_impossible = any(liq_missing(b, ref, c) for c in cs)
     exp_nlv = None if val_impossible else ref.nlv(b.exchange, cs)
     # ---- valuation
@@ -229,7 +242,7 @@ def _work(unit):
     reset_clock()
     out = {"evaluations": 0, "violations": [], "nontrivial": set(), "raised": 0}
     for sb, ref, hist in chunk:
-        for faults in itertools.product(FAULTS, repeat=2):
+        for faults in list(itertools.product(FAULTS, repeat=2)) + ZFAULTS:
             if faults == ("none", "none"):
                 continue
             for probe, msgs, nontrivial in probe_state(sb, ref, cs, fee, faults):
@@ -272,7 +285,7 @@ def run(tier, **kw):
     rep.set("fault_kinds", FAULTS[1:])
     rep.set("exhaustive", True)
     rep.set("rule", "one evaluation = one probe (valuation | weights | rebalance to one of 8 targets over the 2 traded contracts and a never-quoted third) "
-                    "after injecting one of the 24 non-trivial fault assignments {none, bid NaN, ask NaN, both NaN, discontinued then re-quoted}^2 into a copy "
+                    "after injecting one of the 24 non-trivial fault assignments {none, bid NaN, ask NaN, both NaN, discontinued then re-quoted}^2 (plus 3 assignments in which the third contract is discontinued before its first quote and quoted afterwards) into a copy "
                     "of a reachable broker state; enumerated over every state of the ledger BFS within the depth bound; non-trivial = distinct probe in which "
                     "an error is required (a non-zero position lost its liquidation side, or a required trade lost its execution side) or was raised; "
                     "plus environment-level episodes in which the same faults arrive as events at bar k for a held long/short spot or margined position "
